@@ -348,7 +348,7 @@ package hrpc
 //@   ensures[C01] r0.Mutation != nil && sameslice(r0.Mutation.Row, m.key)
 // kind, durability and timestamp of the mutation are the call's own (the timestamp is omitted for "latest")
 //@   ensures[C05] r0.Mutation.MutateType != nil && *r0.Mutation.MutateType == m.mutationType && r0.Mutation.Durability == durabilities[m.durability]
-//@   ensures[C05] (m.timestamp != 18446744073709551615) == (r0.Mutation.Timestamp != nil) && (m.timestamp != 18446744073709551615 ==> *r0.Mutation.Timestamp == m.timestamp)
+//@   ensures[C05,C10] (m.timestamp != 18446744073709551615) == (r0.Mutation.Timestamp != nil) && (m.timestamp != 18446744073709551615 ==> *r0.Mutation.Timestamp == m.timestamp)
 //@ func hrpc.(*baseQuery).Priority
 //@   modifies nothing
 //@   ensures r0 == bq.priority
